@@ -113,10 +113,11 @@ let register () =
   Drv.register "c13.sip" (fun args -> match args with
     | [name] -> string_of_n (Sip.sip_hash (bytes_of_hex name))
     | _ -> "ERR args");
-  (* c13.validate <catar file> -> REJECT | OK <listing>: the extracted format-rule reader *)
+  (* c13.validate <ord 0|1> <catar file> -> REJECT | OK <listing>: the extracted format-rule reader;
+     ord = 1 insists on ascending file names (disk source), 0 accepts the order of a tar stream *)
   Drv.register "c13.validate" (fun args -> match args with
-    | [path] ->
-        (match Tar.validate (bytes_of_string (read_file path)) with
+    | [ord; path] ->
+        (match Tar.validate (ord = "1") (bytes_of_string (read_file path)) with
          | Some t -> "OK " ^ listing t
          | None -> "REJECT")
     | _ -> "ERR args");
